@@ -25,7 +25,7 @@ BAD_KEYS = {
     "identifier": ["1x", "a-b", "a.b"],
     "ipaddr-or-hostname": ["1x", "300.1.1.1", "a/b", "x!"],
 }
-SECTION_NAMES = ["n1", "n2", "N3", "alpha", "Beta"]
+SECTION_NAMES = ["n1", "n2", "N3", "alpha", "Beta", "Stra\u00dfe", "\u039f\u0394\u039f\u03a3"]
 
 GOOD = {
     "string": ["v", "two words", "x=1", "(p)", "<q>", "# not a comment", "é"],
@@ -592,7 +592,7 @@ class TextGen:
             out = []
             for l in lines:
                 if rng.random() < 0.05:
-                    out.append(rng.choice(["", "# comment", "  ", "#<x>"]))
+                    out.append(rng.choice(["", "# comment", "  ", "#<x>", "# page\x0cbreak", "#\u2028x", "# a\x85b\rc"]))
                 out.append(l + (rng.choice(["  ", "\t"]) if rng.random() < 0.05 else ""))
             lines = out
             if rng.random() < 0.15:
